@@ -24,7 +24,10 @@ ALT = {"LA": ("layer", "{core}"), "LB": ("layer", "%s {0}"), "LC": ("layer", "c{
        "Sa": ("str", "r.{a}"), "Sb": ("str", "r.%b"), "La": ("list", ["r.{a}"]), "Lb": ("list", ["r.%b"]), "Lab": ("list", ["r.{a}", "r.%b"]),
        "RX": ("regex", r"r\.c\d{2}.*"), "WL": ("with_layer",), "Sx": ("str", "r.{a}{b}"), "Le": ("list", []), "Laa": ("list", ["r.{a}", "r.{a}"]),
        "Sc": ("str", "%b"), "PK": ("peek",)}
-TABLES = {"plain": ALL, "awkward": ALT}
+# ... and with the empty string as a layer name and as a module name (the API accepts both)
+EMPTY = dict(ALL)
+EMPTY.update({"LA": ("layer", ""), "Sa": ("str", ""), "La": ("list", [""]), "Lab": ("list", ["", ALL["Sb"][1]]), "Laa": ("list", ["", ""])})
+TABLES = {"plain": ALL, "awkward": ALT, "empty": EMPTY}
 
 
 def la_spec(hist, table=None):
@@ -137,7 +140,7 @@ def _job(args):
     if tname == "plain":
         runs += [(h, m, True) for i, (h, m) in enumerate(zip(hists, res)) if i % 3 == 0]
     for h, m, member in runs:
-        k, fam, listing, _ = layers.run_la_impl([ALL[s] for s in h], member_names=member is True, recycle_lists=member == "recycle")
+        k, fam, listing, _ = layers.run_la_impl([ALL[s] for s in h], member_names=member is True, recycle_lists=member == "recycle", by_index=tname == "empty")
         if member == "recycle":
             stats["histories_with_a_recycled_list_argument"] = stats.get("histories_with_a_recycled_list_argument", 0) + 1
         elif member:
@@ -192,6 +195,7 @@ def run(ctx: Ctx):
     jobs = [(hists[i:i + chunk], "plain") for i in range(0, len(hists), chunk)]
     awkward = [h for h in hists if len(h) <= 3] + hists[-(20000 if ctx.quick else 200000) // 4:]
     jobs += [(awkward[i:i + chunk], "awkward") for i in range(0, len(awkward), chunk)]
+    jobs += [(awkward[i:i + chunk], "empty") for i in range(0, len(awkward), chunk)]
     with Pool(NCPU) as pool:
         rs = pool.map(_job, jobs, chunksize=1)
         # the caller catches rejections and goes on: all histories up to length 5 (quick: 4) with at least ... any, plus a sample of the random ones
@@ -222,7 +226,7 @@ def replay(ctx: Ctx, path: str) -> int:
         return 2
     h = c["la_history"]
     table = TABLES[c.get("names", "plain")]
-    k, fam, listing, _ = layers.run_la_impl([table[s] for s in h], member_names=c.get("member_names") is True, recycle_lists=c.get("member_names") == "recycle")
+    k, fam, listing, _ = layers.run_la_impl([table[s] for s in h], member_names=c.get("member_names") is True, recycle_lists=c.get("member_names") == "recycle", by_index=c.get("names") == "empty")
     sk, sarch = la_spec(h, table)
     if k < len(h) and fam != "ConfigError":
         print(h, "offending call raised", fam)
